@@ -72,7 +72,8 @@ OPTS = [
 
 
 def bounds(tier):
-    return {"max_deviations": 2, "axes": {k: len(v) for k, v in AXES.items()}, "option_sets": len(OPTS)}
+    return {"max_deviations": 2 if tier == "quick" else 3, "axes": {k: len(v) for k, v in AXES.items()}, "option_sets": len(OPTS),
+            "note": "thorough: all option sets on every <=2-deviation set, plus all 3-axis deviations over two values per axis (first two non-base values)"}
 
 
 def mk_layout(spec):
@@ -301,6 +302,14 @@ def deviations(maxdev):
                     c[k1] = v1
                     c[k2] = v2
                     yield c
+    if maxdev >= 3:
+        for k1, k2, k3 in itertools.combinations(keys, 3):
+            for v1 in AXES[k1][1:3]:
+                for v2 in AXES[k2][1:3]:
+                    for v3 in AXES[k3][1:3]:
+                        c = dict(base)
+                        c[k1], c[k2], c[k3] = v1, v2, v3
+                        yield c
 
 
 def corpus():
@@ -331,10 +340,10 @@ def corpus():
 
 def shards(tier, seed):
     sh = []
-    n = 24
+    n = 24 if tier == "quick" else 64
     for w in WRITERS:
         for p in range(n):
-            sh.append({"k": "api", "w": w, "part": p, "nparts": n})
+            sh.append({"k": "api", "w": w, "part": p, "nparts": n, "maxdev": bounds(tier)["max_deviations"]})
     sh.append({"k": "readers"})
     return sh
 
@@ -343,13 +352,16 @@ def run_shard(d):
     acc = Acc()
     if d["k"] == "api":
         w = d["w"]
-        for i, cfg in enumerate(deviations(2)):
+        thorough = d.get("maxdev", 2) >= 3
+        for i, cfg in enumerate(deviations(d.get("maxdev", 2))):
             if i % d["nparts"] != d["part"]:
                 continue
             ndev = sum(1 for k in AXES if cfg[k] != AXES[k][0])
             for oi, opt in enumerate(OPTS):
-                if oi and ndev == 2 and (i // d["nparts"] + oi) % 4:
-                    continue  # option sets on a quarter of the two-deviation sets (options x 2 deviations would be 3-wise)
+                if oi and ndev == 2 and not thorough and (i // d["nparts"] + oi) % 4:
+                    continue  # quick: option sets on a quarter of the two-deviation sets (options x 2 deviations would be 3-wise)
+                if oi and ndev == 3 and (i // d["nparts"] + oi) % 7:
+                    continue
                 v, out = evaluate(cfg, w, opt)
                 acc.case((w, cfg, opt), True, (w, out), {"writer": w, "options": opt, "deviations_from_base": {k: cfg[k] for k in cfg if cfg[k] != AXES[k][0]}})
                 for sig, det in v:
